@@ -566,6 +566,20 @@ def mem_pair_corpus():
     return out
 
 
+def forwarding_corpus():
+    """a store followed by a load of the same place (the front end forwards the stored value), with the stored value still needed
+    afterwards and a value computed between store and load that stays beneath the loaded one; constant and symbolic places"""
+    out = []
+    mids = ["", "PUSH1 0x20 ADD", "CALLER", "DUP2 ISZERO", "PUSH1 0x20 ADD SWAP1", "CALLVALUE CALLER"]
+    for st, ld in (("MSTORE", "MLOAD"), ("SSTORE", "SLOAD")):
+        for place in ("PUSH1 0x40", "PUSH1 0x0", "DUP3"):
+            for keep in ("DUP1 ", "DUP2 ", ""):
+                for mid in mids:
+                    for tail in ("", " ADD", " SWAP1", " DUP2 ADD"):
+                        out.append(("%s%s %s %s %s %s%s" % (keep, place, st, mid, place, ld, tail)).replace("  ", " "))
+    return out
+
+
 def ordering_corpus(seed, n):
     """accesses of one region in a row, loads of loaded words included: an access then has several ordering predecessors that
     share predecessors of their own (the position-bound computation visits them in some order)"""
